@@ -221,7 +221,7 @@ def rows(rnd, spec, n):
             elif c < 0.65:
                 x = rnd.choice([lo, hi])
             elif c < 0.8:
-                ps = G.breakpoints(rnd.choice(v["terms"]))
+                ps = G.breakpoints(rnd.choice(v["terms"])) if v["terms"] else []
                 x = rnd.choice(ps) if ps else 0.0
                 x = rnd.choice([x, math.nextafter(x, inf), math.nextafter(x, -inf)])
             elif c < 0.88:
@@ -242,3 +242,29 @@ def finite_rows(rnd, spec, n):
         return rnd.uniform(lo, hi)
 
     return [[(x if math.isfinite(x) else mid(v)) for x, v in zip(r, spec["inputs"])] for r in rows(rnd, spec, n)]
+
+
+def exotic(rnd, spec, empty_engine_name=True):
+    """legitimate but uncommon configurations for the round-trip properties: missing operators (`none`), variables without
+    terms, rule blocks without rules, names with spaces or empty names (engines and rule blocks only - variable and term names
+    must be identifiers)"""
+    spec["name"] = rnd.choice([spec["name"], "my engine", "Motor-1 (v2)"] + ([""] if empty_engine_name else []))
+    for rb in spec["blocks"]:
+        rb["name"] = rnd.choice([rb["name"], rb["name"], "", "rules one"])
+        for op in ("conjunction", "disjunction", "implication"):
+            if rnd.random() < 0.08:
+                rb[op] = None
+        if rnd.random() < 0.08:
+            rb["activation"] = None
+    for o in spec["outputs"]:
+        if rnd.random() < 0.08:
+            o["defuzzifier"] = None
+        if rnd.random() < 0.1:
+            o["aggregation"] = None
+    if rnd.random() < 0.2:
+        spec["inputs"].append(dict(name="spare", description="", enabled=rnd.random() < 0.7, minimum=0.0, maximum=1.0, lock_range=False, terms=[]))
+    if rnd.random() < 0.2:
+        spec["outputs"].append(dict(name="idle", description="", enabled=True, minimum=0.0, maximum=1.0, lock_range=False, lock_previous=False, default_value=nan, aggregation=None, terms=[], kind="integral", defuzzifier=dict(cls="Centroid", resolution=100)))
+    if rnd.random() < 0.2:
+        spec["blocks"].append(dict(name="emptyblock", description="", enabled=True, conjunction="Minimum", disjunction="Maximum", implication="Minimum", activation=dict(cls="General", args=[]), rules=[]))
+    return spec
